@@ -24,15 +24,18 @@ CONSTANTS
     PenaltySet, \* possible values of params.inactive_penalty_duration (seconds)
     DtSet,      \* possible block-time increments (seconds); 0 = equal timestamps
     ShapeSet,   \* report shapes tried: subset of {"exact","missing","extra","wrongId"}
-    AskSet, MinSet \* ask_count / min_count values tried by Request
+    AskSet, MinSet, \* ask_count / min_count values tried by Request
+    Units       \* clock units per second (1, or 2 = half seconds): block times and validator-status times carry the full
+                \* block time, request and resolve times are stored in WHOLE seconds (BlockTime().Unix())
 
 Addr  == Val \cup Stranger
 Never == -1                      \* "zero time" of a validator status that was never set
 Ids   == 1..MaxReq
+Whole(t) == (t \div Units) * Units     \* a time truncated to the whole second
 
 VARIABLES
     h,           \* height of the block in progress
-    now,         \* its block time (seconds since genesis)
+    now,         \* its block time (clock units since genesis)
     params,      \* [exp, penalty]
     count,       \* number of requests ever accepted (= last id)
     lastExpired, \* expiry cursor
@@ -88,7 +91,7 @@ RequestOK(ask, min, ok, S) ==
     /\ S \subseteq Eligible /\ Cardinality(S) = ask
     /\ LET id == count + 1 IN
         /\ count' = id
-        /\ req' = [req EXCEPT ![id] = [present |-> TRUE, vals |-> S, min |-> min, rh |-> h, rt |-> now, ok |-> ok]]
+        /\ req' = [req EXCEPT ![id] = [present |-> TRUE, vals |-> S, min |-> min, rh |-> h, rt |-> Whole(now), ok |-> ok]]
         /\ gvals' = [gvals EXCEPT ![id] = S]
     /\ out' = "ok"
     /\ UNCHANGED <<h, now, params, lastExpired, rep, res, pending, vstat, resolveEv, minAt, resAt>>
@@ -138,7 +141,7 @@ Activate(a) ==
 (***************************************************************************)
 Result(id, status) ==
     [status |-> status, ans |-> Cardinality(rep[id]), ask |-> Cardinality(req[id].vals),
-     min |-> req[id].min, rt |-> req[id].rt, resT |-> now]
+     min |-> req[id].min, rt |-> req[id].rt, resT |-> Whole(now)]
 
 EndBlock(dt) ==
     LET toResolve == Range(pending)
